@@ -445,7 +445,7 @@ func (e *Engine) Explore(entry *ssa.Function) *RunResult {
 						res.Violations = append(res.Violations, v)
 					}
 				}
-				if (ps.status == "done" || ps.status == "violation") && (e.Cfg.KeepSamples == 0 || len(res.Samples) < e.Cfg.KeepSamples) {
+				if ps.completed && (e.Cfg.KeepSamples == 0 || len(res.Samples) < e.Cfg.KeepSamples) {
 					if s, ok := e.sampleOf(entry, ps); ok {
 						res.Samples = append(res.Samples, s)
 					}
@@ -488,7 +488,7 @@ func (e *Engine) sampleOf(entry *ssa.Function, ps *pathState) (PathSample, bool)
 	if !ok {
 		return PathSample{}, false
 	}
-	s := PathSample{Harness: entry.Name(), Vars: map[string]uint64{}, Status: ps.status}
+	s := PathSample{Harness: entry.Name(), Vars: map[string]uint64{}, Status: "done"}
 	for i, nv := range ps.vars {
 		s.Vars[nv.Name] = m.Eval(ps.varTerms[i])
 	}
@@ -569,6 +569,7 @@ func (e *Engine) runPath(entry *ssa.Function, solver *smt.Solver, item workItem)
 		ps.steps = 0
 		ps.panicSite = ""
 		call(i, nil, token.NoPos, entry, nil)
+		ps.completed = true
 		if ps.status == "" {
 			ps.status = "done"
 		}
